@@ -31,6 +31,7 @@ def run(ctx):
     ctx.each(r19f, ctx, repo)
     ctx.each(r19g, ctx, repo)
     ctx.each(r19h, ctx, repo)
+    ctx.each(r19i, ctx, repo)
 
 
 def _walk_loop(fi):
@@ -348,3 +349,59 @@ def r19h(ctx, repo):
                     ok = ast.unparse(v.args[2]) in IDENTITY[op]
                     why = "seeds the reduction with `%s`, which is not the identity of %s" % (ast.unparse(v.args[2]), op)
         ctx.check(ok, "R19h", f, rets[0] if rets else f.node, "%s = reduce(%s, args) (no seed, or the identity)" % (fname, op), "%s %s: `%s(...)` in a parameter function no longer returns the element-wise %s of exactly its arguments" % (fname, why, fname.split("_")[1], fname.split("_")[1] + "imum"), stmt_text="reduce:%s" % fname)
+
+
+MUTATORS = {"remove", "append", "extend", "insert", "pop", "clear", "sort", "reverse"}
+
+
+def r19i(ctx, repo):
+    ctx.rule("R19i", "the reported dependency list belongs to its caller: no caller of parse_function changes the returned list in place (remove / append / del / item assignment); and if parse_function is memoised (a caching decorator), it may not hand out a mutable list at all - a cached list edited by one caller (e.g. `t` and `dt` removed while building a model) is what every later parse of the same string reports")
+    pf = repo.func("function_parser", "parse_function")
+    cached = [ast.unparse(d) for d in pf.node.decorator_list if any(w in ast.unparse(d) for w in ("cache", "memo"))]
+    n = 0
+    mutated = []
+    for fi in repo.all_functions():
+        for c in own_nodes(fi.node):
+            if not (isinstance(c, ast.Call) and ast.unparse(c.func) in ("parse_function", "atomica.parse_function", "at.parse_function", "function_parser.parse_function")):
+                continue
+            n += 1
+            st = enclosing_stmt(c)
+            names = set()
+            if isinstance(st, ast.Assign) and st.value is c:
+                t = st.targets[0]
+                if isinstance(t, ast.Tuple) and len(t.elts) == 2 and isinstance(t.elts[1], ast.Name):
+                    names.add(t.elts[1].id)
+                elif isinstance(t, ast.Name):
+                    names.add(t.id)
+            elif isinstance(st, ast.Assign) and isinstance(st.value, ast.Subscript) and st.value.value is c and isinstance(st.targets[0], ast.Name):
+                names.add(st.targets[0].id)
+            for nm in names:
+                for x in own_nodes(fi.node):
+                    bad = None
+                    if isinstance(x, ast.Call) and isinstance(x.func, ast.Attribute) and x.func.attr in MUTATORS:
+                        root = x.func.value
+                        while isinstance(root, ast.Subscript):
+                            root = root.value
+                        if isinstance(root, ast.Name) and root.id == nm:
+                            bad = x
+                    elif isinstance(x, (ast.Assign, ast.AugAssign, ast.Delete)):
+                        for t in (x.targets if not isinstance(x, ast.AugAssign) else [x.target]):
+                            if isinstance(t, ast.Subscript):
+                                root = t
+                                while isinstance(root, ast.Subscript):
+                                    root = root.value
+                                if isinstance(root, ast.Name) and root.id == nm:
+                                    bad = x
+                            elif isinstance(x, ast.AugAssign) and isinstance(t, ast.Name) and t.id == nm:
+                                bad = x
+                    if bad is not None:
+                        mutated.append((fi, enclosing_stmt(bad), nm))
+    ctx.require(n >= 3, "R19i: fewer call sites of parse_function (%d) than confirmed (3)" % n)
+    for fi, st, nm in mutated:
+        ctx.fail("R19i", fi, st, "`%s` changes the dependency list returned by parse_function in place%s" % (norm(st)[:70], (": parse_function is memoised (%s), so every later parse of the same string reports the edited list" % ", ".join(cached)) if cached else ": the list is what parse_function reports as the names the expression depends on"), stmt_text="deps-mutated:%s" % nm)
+    if not mutated:
+        ctx.ok("R19i", pf, "%d call sites of parse_function leave the returned dependency list untouched%s" % (n, " (parse_function is memoised: %s)" % cached if cached else ""))
+    if cached:
+        rets = [r for r in own_nodes(pf.node) if isinstance(r, ast.Return) and r.value is not None]
+        frozen = all(isinstance(r.value, ast.Tuple) and len(r.value.elts) == 2 and isinstance(r.value.elts[1], ast.Call) and ast.unparse(r.value.elts[1].func) in ("tuple", "frozenset") for r in rets)
+        ctx.check(frozen, "R19i", pf, rets[0] if rets else pf.node, "memoised parse_function returns an immutable dependency collection", "parse_function is memoised (%s) but returns a mutable list: all callers parsing the same string share one list object" % ", ".join(cached), stmt_text="memoised-mutable")
